@@ -69,8 +69,11 @@ func genericRun(sp stagePlan) func(rep *Report, def *propDef) {
 		if rep.Tier == "thorough" {
 			budget = 60 * time.Minute
 		}
-		// development aid (tools/try_seed.sh): stop at the first stage that has a finding
-		failFast := func() bool { return os.Getenv("VERIF_FAILFAST") != "" && len(rep.Findings) > 0 }
+		// development aid (tools/try_seed.sh): stop at the first stage that has a finding which
+		// reproduces in a fresh process
+		failFast := func() bool {
+			return os.Getenv("VERIF_FAILFAST") != "" && len(rep.Findings) > 0 && rep.anyConfirmed()
+		}
 		for i, cp := range sp.covers {
 			cats := cp.cats(rep.Seed*7919+int64(i), rep.Tier)
 			st, err := coverStage(cp.name, cats, cp.bounds, budget, 24, rep.Tier == "thorough" && i == 0)
@@ -244,6 +247,9 @@ func pairTraces(name string, ft fam.Features, opts []cat.Opts, variants []string
 var properties = map[string]*propDef{}
 
 func register(d *propDef) { properties[d.id] = d }
+
+// infoOuts: the expected and the reported outputs in an Info divergence of the front-end stage
+var infoOuts = regexp.MustCompile(`ProvideInfo want in=\[.*?\] out=(\[.*?\]) got in=\[.*?\] out=(\[.*?\])`)
 
 // optTagged: the descriptor of a front-end case that carries a non-empty `optional` tag
 var optTagged = regexp.MustCompile(`"opt":"[^"]`)
@@ -450,6 +456,12 @@ func init() {
 		extra: func(k, d string) bool {
 			// an empty group name would alias the key of the unnamed single value
 			emptyGroup := contains(d, `"grp":",`, `"group":",`)
+			// (front end) the keys an accepted Provide occupies are the outputs it reports
+			if k == "info" {
+				if m := infoOuts.FindStringSubmatch(d); m != nil && m[1] != m[2] {
+					return true
+				}
+			}
 			return (strings.HasPrefix(k, "verdict.provide") && (contains(d, "dup", "want ok") || emptyGroup)) || (k == "verdict.invoke" && contains(d, "missing")) || (k == "crash" && emptyGroup)
 		},
 		run: genericRun(stagePlan{
@@ -614,8 +626,13 @@ func init() {
 		projection: "ProvideInfo / DecorateInfo / InvokeInfo entries (strings, counts, order), untouched on rejection, constructor ids",
 		kinds:      []string{"info"},
 		run: genericRun(stagePlan{
-			covers: []coverPlan{randCover("info", small, rec, 60, 400, 0), libCover("lib", rec, false, 8, 80, 0)},
-			traces: stdTraces("info", medium, 0, stdOpts),
+			covers: []coverPlan{
+				randCover("info", small, rec, 60, 400, 0),
+				libCover("lib", rec, false, 8, 80, 0),
+				// what is reported does not depend on how the function then fares
+				randCover("info-failures", small, recBoth, 30, 300, 1),
+			},
+			traces: stdTraces("info", medium, 0.1, stdOpts),
 			sig:    true})})
 
 	register(&propDef{id: "C19",
